@@ -1,5 +1,6 @@
 import ButlerModel.Model.Txn
 import ButlerModel.Model.TxnCache
+import ButlerModel.Gen.DsTxnPy
 /-! # C07 — a failed transaction block leaves registry and datastore untouched -/
 namespace C07
 open Txn
@@ -337,3 +338,69 @@ theorem old_code_stale_cache :
 example : Coherent { rows := [1] } := Or.inl rfl
 
 end C07.Cache
+
+/-! ### The datastore's undo-log transactions as translated from the source on every run (`Gen/DsTxnPy.lean`)
+
+`Datastore.transaction`, `DatastoreTransaction.registerUndo / rollback / commit` are translated by `translate/gen_dstxn.py`; the
+theorems below are about those translations, for every stack of enclosing transactions and every list of registered events. -/
+namespace C07.Translated
+open Gen.DsTxnPy
+
+def registerAll (evs : List Nat) (s : St) : St := evs.foldl (fun s e => register e s) s
+
+theorem registerAll_cons (log : List Nat) (rest : Tx) (u evs : List Nat) :
+    registerAll evs (log :: rest, u) = ((log ++ evs) :: rest, u) := by
+  induction evs generalizing log with
+  | nil => simp [registerAll]
+  | cons e r ih =>
+    simp only [registerAll, List.foldl_cons, register, registerUndo] at ih ⊢
+    rw [ih]; simp
+
+/-- **A failed block undoes everything it registered, newest first, and nothing else; the enclosing transaction is current again
+with its log untouched** (whatever the enclosing stack). -/
+theorem failed_block (st : Tx) (u evs : List Nat) :
+    leave true (registerAll evs (enter (st, u))) = (st, u ++ evs.reverse) := by
+  simp [enter, registerAll_cons, leave, handlerReraises, finallyBlock, onException, rollbackTop, restoreParent, rollbackOrder]
+
+/-- **A block that ends normally undoes nothing and hands its events, in order, to the enclosing transaction** -/
+theorem committed_block (p : List Nat) (rest : Tx) (u evs : List Nat) :
+    leave false (registerAll evs (enter (p :: rest, u))) = ((p ++ evs) :: rest, u) := by
+  simp [enter, registerAll_cons, leave, afterTry, finallyBlock, onSuccess, commitTop, restoreParent, commitInto]
+
+/-- … and an outermost block that ends normally leaves no transaction behind -/
+theorem committed_outermost (u evs : List Nat) :
+    leave false (registerAll evs (enter ([], u))) = ([], u) := by
+  simp [enter, registerAll_cons, leave, afterTry, finallyBlock, onSuccess, commitTop, restoreParent]
+
+/-- **Nesting**: what an inner block committed is undone with the outer block when that fails later — all of it, newest first. -/
+theorem inner_commit_then_outer_failure (st : Tx) (u a evs b : List Nat) :
+    leave true (registerAll b (leave false (registerAll evs (enter (registerAll a (enter (st, u))))))) =
+      (st, u ++ (a ++ evs ++ b).reverse) := by
+  have h1 : registerAll a (enter (st, u)) = (a :: st, u) := by simp [enter, registerAll_cons]
+  rw [h1, committed_block]
+  have h2 : ((a ++ evs) :: st, u) = registerAll (a ++ evs) (enter (st, u)) := by simp [enter, registerAll_cons]
+  have h3 : registerAll b (registerAll (a ++ evs) (enter (st, u))) = registerAll (a ++ evs ++ b) (enter (st, u)) := by
+    simp [registerAll, List.foldl_append]
+  rw [h2, h3, failed_block]
+
+/-- **Nesting**: an inner block that fails and is caught inside the outer one undoes its own events only; the outer block goes on
+and commits what *it* registered, before and after. -/
+theorem inner_failure_caught_then_outer_commit (p : List Nat) (rest : Tx) (u a evs b : List Nat) :
+    leave false (registerAll b (leave true (registerAll evs (enter (registerAll a (enter (p :: rest, u))))))) =
+      ((p ++ (a ++ b)) :: rest, u ++ evs.reverse) := by
+  have h1 : registerAll a (enter (p :: rest, u)) = (a :: p :: rest, u) := by simp [enter, registerAll_cons]
+  rw [h1, failed_block]
+  have h2 : registerAll b (a :: p :: rest, u ++ evs.reverse) = registerAll (a ++ b) (enter (p :: rest, u ++ evs.reverse)) := by
+    simp [enter, registerAll_cons]
+  rw [h2, committed_block]
+
+/-- the hand-written model's `rollbackFiles` (which the fault-enumeration theorems of this file use) removes exactly the artifacts of
+the events the translated `rollback` undoes -/
+theorem model_rollback (evs files : List Nat) :
+    Txn.rollbackFiles evs files = files.filter (fun f => !(rollbackOrder evs).contains f) := by
+  simp [Txn.rollbackFiles, rollbackOrder]
+
+/-- non-vacuity / witness of the order: three events, undone 3, 2, 1 -/
+example : leave true (registerAll [1, 2, 3] (enter ([[9]], []))) = ([[9]], [3, 2, 1]) := by decide
+
+end C07.Translated
